@@ -21,9 +21,18 @@ def ifRangeToHeader : IfRangeV → Except String Str
   | .etag e => quoteEtag e
 
 /-- `parse_if_range_header(value)` with `parse_date` abstracted as `pd` -/
+def looksLikeEtag (value : Str) : Bool :=
+  match lstrip value with
+  | '"' :: _ => true
+  | 'W' :: '/' :: '"' :: _ => true
+  | 'w' :: '/' :: '"' :: _ => true
+  | _ => false
+
 def parseIfRange (pd : Str → Option Nat) (value : Str) : IfRangeV :=
   if value.isEmpty then .empty else
-  match pd value with
+  -- an entity tag is quoted, a date is not: a quoted value is never offered to the date parser
+  let date := if looksLikeEtag value then none else pd value
+  match date with
   | some t => .date t
   | none =>
     match unquoteEtag value with
